@@ -84,15 +84,16 @@ Proof. vm_compute. reflexivity. Qed.
 (** Query-time [Entries] (systems): the row is viewed through the declared entry views first — a
     non-optional view of an absent component leaves an uninitialised slot — and each requested
     sub-view is then taken out of the matching slot by the operation the source uses for that pair
-    of kinds (table regenerated from query/view/subset.rs).  For every subset the type system
+    of kinds (table regenerated from query/view/subset.rs); the filter [And<Filter, SubViews>] is decided item by
+    item against the entry views, again through a regenerated table (query/view/contains/filter.rs).  For every subset the type system
     accepts, no uninitialised slot is ever read and the result is what [World::entry(e).query]
     returns for the same views. *)
 Theorem C03_entries_subviews : forall w e supers subs f, Inv w ->
-  wf_views (w_n w) supers -> wf_views (w_n w) subs -> subset_ok supers subs ->
+  wf_views (w_n w) supers -> wf_views (w_n w) subs -> subset_ok supers subs -> filter_covered supers f ->
   entries_entry_query w e supers subs f = entry_query w e subs f.
 Proof. exact entries_entry_query_eq. Qed.
 Check (C03_entries_subviews : forall w e supers subs f, Inv w ->
-  wf_views (w_n w) supers -> wf_views (w_n w) subs -> subset_ok supers subs ->
+  wf_views (w_n w) supers -> wf_views (w_n w) subs -> subset_ok supers subs -> filter_covered supers f ->
   entries_entry_query w e supers subs f = entry_query w e subs f).
 Print Assumptions C03_entries_subviews.
 
